@@ -18,6 +18,11 @@
 //	           ever offered below the last successfully published tx of the same
 //	           input set, across retries too (exact reported rates where the sweeper
 //	           stored one, else the interval of rates consistent with fee and weight)
+//	per-input  for every offered input, whatever sets it travels through (sets are
+//	           regrouped after failed sweeps, after a restart, when later inputs
+//	           join): no tx spending it is ever offered below the rate of a tx
+//	           spending it that was already published - unless that tx pays the
+//	           ceiling min(budget/size, max) of the set it now belongs to
 //	floor      a rate chosen by the node starts at >= the relay floor (if ceiling >= floor)
 //	deadline   once a block at height >= deadline-1 has been processed, the last tx
 //	           offered for the input set pays the ceiling min(budget/size, max), where
@@ -69,6 +74,7 @@ type InSpec struct {
 	ReqOut    int64 `json:"req_out,omitempty"` // >0: carries a required output of this value
 	Start     int64 `json:"start,omitempty"`   // explicit starting fee rate (sat/kw)
 	Immediate bool  `json:"immediate,omitempty"`
+	At        int32 `json:"at,omitempty"` // offered once every delivered block with offset <= At has been processed (0: before the first block)
 }
 
 // Scenario is one execution (and the replay artefact).
@@ -85,6 +91,8 @@ type Scenario struct {
 	RejectMask   uint32   `json:"reject_mask"` // per input set: i-th CheckMempoolAcceptance answers ErrInsufficientFee
 	PubFailMask  uint32   `json:"pubfail_mask"`
 	P2WKHChange  bool     `json:"p2wkh_change,omitempty"`
+	PubFailAt    []int32  `json:"pubfail_at,omitempty"` // EVERY PublishTransaction at these heights (offsets) fails with a non-fee error, whatever the input set
+	Restart      int32    `json:"restart,omitempty"`    // >0: once the blocks with offset <= Restart are processed the node is stopped, a new sweeper+publisher is started on the same store / mempool and every input offered so far is offered again with its original params
 }
 
 // ---------------------------------------------------------------------------
@@ -231,6 +239,10 @@ type world struct {
 	offered map[wire.OutPoint]bool
 	change  []byte
 	info    func(string)
+	// mempool model: the successfully published txs that no later successful
+	// publish conflicts with (nothing ever confirms)
+	pool       map[chainhash.Hash]*wire.MsgTx
+	restartSeq []int // value of seq at each restart
 }
 
 func keyOfOutpoints(ops []wire.OutPoint) string {
@@ -272,6 +284,19 @@ func (m wallet) PublishTransaction(tx *wire.MsgTx, _ string) error {
 	ans := "ok"
 	if i < 32 && w.sc.PubFailMask>>uint(i)&1 == 1 {
 		err, ans = errPublish, "publish-error"
+	}
+	for _, off := range w.sc.PubFailAt {
+		if w.height == h0+off {
+			err, ans = errPublish, "publish-error"
+		}
+	}
+	if err == nil {
+		for h, old := range w.pool {
+			if conflicts(old, tx) {
+				delete(w.pool, h)
+			}
+		}
+		w.pool[tx.TxHash()] = tx.Copy()
 	}
 	w.seq++
 	w.txs = append(w.txs, txObs{Seq: w.seq, Height: w.height, Kind: "publish", Tx: tx.Copy(), Ans: ans, Key: k})
@@ -346,13 +371,33 @@ func (notifier) Started() bool { return true }
 func (notifier) Stop() error   { return nil }
 
 // --- chainntnfs.MempoolWatcher
-type mempool struct{}
+type mempool struct{ w *world }
+
+func conflicts(a, b *wire.MsgTx) bool {
+	for _, x := range a.TxIn {
+		for _, y := range b.TxIn {
+			if x.PreviousOutPoint == y.PreviousOutPoint {
+				return true
+			}
+		}
+	}
+	return false
+}
 
 func (mempool) SubscribeMempoolSpent(wire.OutPoint) (*chainntnfs.MempoolSpendEvent, error) {
 	return nil, errors.New("c18: unused")
 }
 func (mempool) CancelMempoolSpendEvent(*chainntnfs.MempoolSpendEvent) {}
-func (mempool) LookupInputMempoolSpend(wire.OutPoint) fn.Option[wire.MsgTx] {
+func (m mempool) LookupInputMempoolSpend(op wire.OutPoint) fn.Option[wire.MsgTx] {
+	m.w.mu.Lock()
+	defer m.w.mu.Unlock()
+	for _, tx := range m.w.pool {
+		for _, ti := range tx.TxIn {
+			if ti.PreviousOutPoint == op {
+				return fn.Some(*tx.Copy())
+			}
+		}
+	}
 	return fn.None[wire.MsgTx]()
 }
 
@@ -432,7 +477,8 @@ type observation struct {
 
 func runScenario(t *testing.T, sc *Scenario, info func(string)) (obs *observation) {
 	w := &world{sc: sc, height: h0, stored: map[chainhash.Hash]sweep.TxRecord{}, nCheck: map[string]int{}, nPub: map[string]int{},
-		values: map[wire.OutPoint]int64{}, budgets: map[wire.OutPoint]int64{}, reqOuts: map[wire.OutPoint]int64{}, offered: map[wire.OutPoint]bool{}, info: info}
+		values: map[wire.OutPoint]int64{}, budgets: map[wire.OutPoint]int64{}, reqOuts: map[wire.OutPoint]int64{}, offered: map[wire.OutPoint]bool{}, info: info,
+		pool: map[chainhash.Hash]*wire.MsgTx{}}
 	w.change = p2tr(0xcc)
 	if sc.P2WKHChange {
 		w.change = p2wkh(0xcc)
@@ -442,6 +488,12 @@ func runScenario(t *testing.T, sc *Scenario, info func(string)) (obs *observatio
 		w.utxos = append(w.utxos, &lnwallet.Utxo{AddressType: lnwallet.WitnessPubKey, Value: btcutil.Amount(v), Confirmations: 6, PkScript: p2wkh(byte(0x40 + i)), OutPoint: op})
 		w.values[op] = v
 	}
+	for i, s := range sc.Inputs {
+		op := outpoint('i', i)
+		w.values[op] = s.Value
+		w.budgets[op] = s.Budget
+		w.reqOuts[op] = s.ReqOut
+	}
 	obs = &observation{w: w, lastH: h0}
 	synctest.Test(t, func(t *testing.T) {
 		defer func() {
@@ -450,39 +502,47 @@ func runScenario(t *testing.T, sc *Scenario, info func(string)) (obs *observatio
 			}
 		}()
 		est := estimator{w}
-		pub := sweep.NewTxPublisher(sweep.TxPublisherConfig{Signer: signer{}, Wallet: wallet{w}, Estimator: est, Notifier: notifier{}})
-		sw := sweep.New(&sweep.UtxoSweeperConfig{
-			GenSweepScript: func() fn.Result[lnwallet.AddrWithKey] {
-				return fn.Ok(lnwallet.AddrWithKey{DeliveryAddress: w.change})
-			},
-			FeeEstimator:         est,
-			Wallet:               wallet{w},
-			Notifier:             notifier{},
-			Mempool:              mempool{},
-			Store:                store{w},
-			Signer:               signer{},
-			MaxInputsPerTx:       sweep.DefaultMaxInputsPerTx,
-			MaxFeeRate:           chainfee.SatPerVByte(sc.MaxFeeRateVB),
-			Aggregator:           sweep.NewBudgetAggregator(est, sweep.DefaultMaxInputsPerTx, fn.None[sweep.AuxSweeper]()),
-			Publisher:            bumper{w, pub},
-			NoDeadlineConfTarget: 1008,
-		})
-		beat0 := chainio.NewBeat(chainntnfs.BlockEpoch{Height: h0})
-		if err := sw.Start(beat0); err != nil {
-			panic(err)
+		var (
+			pub *sweep.TxPublisher
+			sw  *sweep.UtxoSweeper
+		)
+		startNode := func(h int32) {
+			pub = sweep.NewTxPublisher(sweep.TxPublisherConfig{Signer: signer{}, Wallet: wallet{w}, Estimator: est, Notifier: notifier{}})
+			sw = sweep.New(&sweep.UtxoSweeperConfig{
+				GenSweepScript: func() fn.Result[lnwallet.AddrWithKey] {
+					return fn.Ok(lnwallet.AddrWithKey{DeliveryAddress: w.change})
+				},
+				FeeEstimator:         est,
+				Wallet:               wallet{w},
+				Notifier:             notifier{},
+				Mempool:              mempool{w},
+				Store:                store{w},
+				Signer:               signer{},
+				MaxInputsPerTx:       sweep.DefaultMaxInputsPerTx,
+				MaxFeeRate:           chainfee.SatPerVByte(sc.MaxFeeRateVB),
+				Aggregator:           sweep.NewBudgetAggregator(est, sweep.DefaultMaxInputsPerTx, fn.None[sweep.AuxSweeper]()),
+				Publisher:            bumper{w, pub},
+				NoDeadlineConfTarget: 1008,
+			})
+			beat0 := chainio.NewBeat(chainntnfs.BlockEpoch{Height: h})
+			if err := sw.Start(beat0); err != nil {
+				panic(err)
+			}
+			if err := pub.Start(beat0); err != nil {
+				panic(err)
+			}
 		}
-		if err := pub.Start(beat0); err != nil {
-			panic(err)
-		}
-		var resChans []chan sweep.Result
-		for i, s := range sc.Inputs {
+		startNode(h0)
+		resChans := make([]chan sweep.Result, len(sc.Inputs))
+		isOffered := make([]bool, len(sc.Inputs))
+		offer := func(i int, again bool) {
+			s := sc.Inputs[i]
 			in := makeInput(i, s)
 			w.mu.Lock()
-			w.values[in.op] = s.Value
-			w.budgets[in.op] = s.Budget
-			w.reqOuts[in.op] = s.ReqOut
 			w.offered[in.op] = true
+			h := w.height
 			w.mu.Unlock()
+			isOffered[i] = true
 			p := sweep.Params{Budget: btcutil.Amount(s.Budget), Immediate: s.Immediate}
 			if sc.Delta >= 0 {
 				p.DeadlineHeight = fn.Some(h0 + sc.Delta)
@@ -490,15 +550,47 @@ func runScenario(t *testing.T, sc *Scenario, info func(string)) (obs *observatio
 			if s.Start > 0 {
 				p.StartingFeeRate = fn.Some(chainfee.SatPerKWeight(s.Start))
 			}
-			w.logf("h=%d SweepInput #%d value=%d budget=%d req_out=%d start=%d immediate=%v deadline=%d", h0, i, s.Value, s.Budget, s.ReqOut, s.Start, s.Immediate, h0+sc.Delta)
+			what := "SweepInput"
+			if again {
+				what = "SweepInput (again, after the restart)"
+			}
+			w.logf("h=%d %s #%d value=%d budget=%d req_out=%d start=%d immediate=%v deadline=%d", h, what, i, s.Value, s.Budget, s.ReqOut, s.Start, s.Immediate, h0+sc.Delta)
 			rc, err := sw.SweepInput(in, p)
 			if err != nil {
 				panic(err)
 			}
-			resChans = append(resChans, rc)
+			resChans[i] = rc
 			synctest.Wait()
 		}
+		restarted := sc.Restart <= 0
+		// due performs what is scheduled between two blocks: everything with
+		// an offset below that of the next block to be delivered.
+		due := func(next int32) {
+			if !restarted && sc.Restart < next {
+				restarted = true
+				w.logf("---- restart at height %d: sweeper and publisher stopped, new instances on the same store and mempool ----", w.height)
+				_ = sw.Stop()
+				_ = pub.Stop()
+				synctest.Wait()
+				w.mu.Lock()
+				w.restartSeq = append(w.restartSeq, w.seq)
+				h := w.height
+				w.mu.Unlock()
+				startNode(h)
+				for i := range sc.Inputs {
+					if isOffered[i] {
+						offer(i, true)
+					}
+				}
+			}
+			for i, s := range sc.Inputs {
+				if !isOffered[i] && s.At < next {
+					offer(i, false)
+				}
+			}
+		}
 		for _, off := range sc.Blocks {
+			due(off)
 			h := h0 + off
 			w.mu.Lock()
 			w.height = h
@@ -512,7 +604,12 @@ func runScenario(t *testing.T, sc *Scenario, info func(string)) (obs *observatio
 			synctest.Wait()
 			obs.lastH = h
 		}
-		for _, rc := range resChans {
+		due(1 << 30)
+		for i, rc := range resChans {
+			if !isOffered[i] {
+				obs.results = append(obs.results, "not-offered")
+				continue
+			}
 			select {
 			case r := <-rc:
 				if r.Err != nil {
@@ -551,6 +648,7 @@ type txFacts struct {
 	fee, w, lo, hi int64
 	hasChange      bool
 	exact          int64 // reported rate, -1 if none
+	judged         bool  // fee, weight and rate interval are valid
 }
 
 // ceilingCandidates returns the integer rates that can be called "the lesser of
@@ -589,7 +687,7 @@ func judge(sc *Scenario, obs *observation) (v verdict) {
 	add := func(clause, cause, f string, a ...any) {
 		// the "start above ceiling" tag only explains rate clauses
 		switch clause {
-		case "fee-rate-above-max", "ceiling-not-reached", "rate-decrease", "rate-below-published":
+		case "fee-rate-above-max", "ceiling-not-reached", "rate-decrease", "rate-below-published", "input-rate-below-published":
 		default:
 			cause = "none"
 		}
@@ -729,6 +827,7 @@ func judge(sc *Scenario, obs *observation) (v verdict) {
 			}
 		}
 		byKey[t.Key] = append(byKey[t.Key], i)
+		f.judged = true
 		v.nTx++
 		// canonical: per input set in hand-over order (records of different
 		// input sets are bumped by concurrent goroutines; their relative
@@ -736,7 +835,7 @@ func judge(sc *Scenario, obs *observation) (v verdict) {
 		perKey[t.Key] += fmt.Sprintf("%s:%d:%d:%d:%d:%v:%s;", t.Kind, t.Height-h0, len(tx.TxIn), f.fee, f.w, f.hasChange, t.Ans)
 	}
 
-	healthy := !sc.EstErr && sc.EstFee >= sc.Relay && sc.PubFailMask == 0
+	healthy := !sc.EstErr && sc.EstFee >= sc.Relay && sc.PubFailMask == 0 && len(sc.PubFailAt) == 0
 	keys := make([]string, 0, len(byKey))
 	for k := range byKey {
 		keys = append(keys, k)
@@ -801,6 +900,11 @@ func judge(sc *Scenario, obs *observation) (v verdict) {
 		switch {
 		case !healthy:
 			v.classes = append(v.classes, "deadline-clause-skipped:unhealthy-environment")
+		case supersededByRestart(obs, k, t.Seq):
+			// the node was restarted after the last tx of this input set and
+			// every offered input of the set was then swept in another set:
+			// the ramp of those inputs is judged on the set they ended up in
+			v.classes = append(v.classes, "deadline-clause-skipped:input-set-regrouped-after-restart")
 		case obs.lastH < r.Deadline-1:
 			v.classes = append(v.classes, "deadline-clause-skipped:run-ends-before-deadline-1")
 		default:
@@ -864,12 +968,68 @@ func judge(sc *Scenario, obs *observation) (v verdict) {
 					cause = "budget-rate-roundup-exceeds-budget"
 				}
 				extra := ""
+				if cause == "none" {
+					if n, why := droppedSmallBudgetInput(obs, sc, k, t.Seq, f); n >= 0 {
+						// the set was split after its last tx: a later request sweeps the
+						// other inputs without input n, which is never offered again, and
+						// n's own budget does not pay the set's last rate on n's own size
+						cause = "small-budget-input-dropped-from-set"
+						extra = why
+					}
+				}
 				if underfunded > 0 {
-					extra = fmt.Sprintf("; the attached inputs can pay at most %d in fees although %d sat of wallet UTXOs were left unattached", in-reqSum, underfunded)
+					extra += fmt.Sprintf("; the attached inputs can pay at most %d in fees although %d sat of wallet UTXOs were left unattached", in-reqSum, underfunded)
 				}
 				add("ceiling-not-reached", cause, "blocks up to height %d (deadline %d) were processed, yet the last tx offered for the input set (height %d) pays fee %d on weight %d = rates %d..%d (reported %d), not the ceiling %v = min(budget %d/size, max %d)%s", obs.lastH, r.Deadline, t.Height, f.fee, f.w, f.lo, f.hi, f.exact, cands, r.Budget, r.MaxRate, extra)
 			} else {
 				v.classes = append(v.classes, "reached-ceiling-by-deadline-1")
+			}
+		}
+	}
+
+	// monotone, per INPUT: whatever sets an input travels through (regrouped
+	// after failed sweeps, after a restart, joined by later inputs), nothing
+	// that spends it is ever offered below a rate at which a tx spending it was
+	// already published - unless the tx pays the ceiling min(budget/size, max)
+	// of the set it is now part of (the budget bound has precedence).
+	for n := range sc.Inputs {
+		op := outpoint('i', n)
+		lastPub, lastPubH, lastPubKeyN := int64(-1), int32(0), 0
+		for i, t := range obs.txs {
+			f := facts[i]
+			if !f.judged { // unknown input / no request / negative fee: reported above
+				continue
+			}
+			spends := false
+			for _, ti := range t.Tx.TxIn {
+				spends = spends || ti.PreviousOutPoint == op
+			}
+			if !spends {
+				continue
+			}
+			upper, lower := f.hi, f.lo
+			if f.exact >= 0 {
+				upper, lower = f.exact, f.exact
+			}
+			if upper < lastPub {
+				r := reqFor(t)
+				cands := ceilingCandidates(r.Budget, f.w, r.MaxRate)
+				clamped := false
+				for _, c := range cands {
+					clamped = clamped || upper >= c
+				}
+				ceilRate := r.Budget * 1000 / f.w
+				if r.MaxRate < ceilRate {
+					ceilRate = r.MaxRate
+				}
+				if clamped {
+					v.classes = append(v.classes, "input-rate-lower-only-by-ceiling-of-new-set")
+				} else {
+					add("input-rate-below-published", causeOf(r, ceilRate), "input #%d: a tx spending it together with %d other input(s) (%s at height %d) offers at most %d sat/kw although a tx spending it (%d inputs) was already published at height %d paying at least %d sat/kw; the ceiling of the new set is %v = min(budget %d/size, max %d), request start=%d", n, len(t.Tx.TxIn)-1, t.Kind, t.Height, upper, lastPubKeyN, lastPubH, lastPub, cands, r.Budget, r.MaxRate, r.Start)
+				}
+			}
+			if t.Kind == "publish" && t.Ans == "ok" && lower > lastPub {
+				lastPub, lastPubH, lastPubKeyN = lower, t.Height, len(t.Tx.TxIn)
 			}
 		}
 	}
@@ -918,6 +1078,88 @@ func judge(sc *Scenario, obs *observation) (v verdict) {
 	return
 }
 
+// supersededByRestart: the node was restarted after seq, and every offered
+// input of the set key is spent by a later tx of a different set.
+func supersededByRestart(obs *observation, key string, seq int) bool {
+	restarted := false
+	for _, rs := range obs.w.restartSeq {
+		restarted = restarted || rs >= seq
+	}
+	if !restarted {
+		return false
+	}
+	w := obs.w
+	any := false
+	for _, o := range strings.Split(key, ",") {
+		isOffered := false
+		for op := range w.offered {
+			isOffered = isOffered || op.String() == o
+		}
+		if !isOffered {
+			continue
+		}
+		any = true
+		later := false
+		for _, t := range obs.txs {
+			if t.Seq <= seq || t.Key == key {
+				continue
+			}
+			for _, ti := range t.Tx.TxIn {
+				later = later || ti.PreviousOutPoint.String() == o
+			}
+		}
+		if !later {
+			return false
+		}
+	}
+	return any
+}
+
+// droppedSmallBudgetInput looks for the shape "after the last tx of the set key
+// (seq) some inputs of the set are swept on by later requests, an offered input
+// n of the set is in no later request or tx at all, and budget(n) is less than
+// the fee of n's own weight at the rate of the set's last tx". Returns n or -1.
+func droppedSmallBudgetInput(obs *observation, sc *Scenario, key string, seq int, f txFacts) (int, string) {
+	rate := f.lo
+	if f.exact >= 0 {
+		rate = f.exact
+	}
+	members := map[string]bool{}
+	for _, o := range strings.Split(key, ",") {
+		members[o] = true
+	}
+	usedLater := map[string]bool{}
+	for _, r := range obs.reqs {
+		if r.Seq <= seq {
+			continue
+		}
+		for _, o := range strings.Split(r.Key, ",") {
+			usedLater[o] = true
+		}
+	}
+	others := 0
+	for n := range sc.Inputs {
+		if op := outpoint('i', n).String(); members[op] && usedLater[op] {
+			others++
+		}
+	}
+	if others == 0 {
+		return -1, ""
+	}
+	for n, in := range sc.Inputs {
+		op := outpoint('i', n).String()
+		if !members[op] || usedLater[op] {
+			continue
+		}
+		size, _, _ := makeInput(n, in).wt.SizeUpperBound()
+		own := int64(4*41) + int64(size)
+		if in.Budget*1000 < rate*own {
+			return n, fmt.Sprintf("; input #%d (budget %d, own weight %d wu: pays at most %d sat/kw alone) was left out of every later request while %d other input(s) of the set were swept on", n, in.Budget, own, in.Budget*1000/own, others)
+		}
+	}
+	return -1, ""
+}
+
 func firstReqOfKey(obs *observation, key string) int {
 	for i := range obs.reqs {
 		if obs.reqs[i].Key == key {
@@ -945,8 +1187,14 @@ func syntheticWeight(sc *Scenario, change []byte) int64 {
 
 // expectSweep: conservative preconditions under which a sweep must be published.
 func expectSweep(sc *Scenario, w *world) (bool, string) {
-	if sc.EstErr || sc.EstFee < sc.Relay || sc.PubFailMask != 0 || sc.RejectMask != 0 || sc.Delta < 0 {
+	if sc.EstErr || sc.EstFee < sc.Relay || sc.PubFailMask != 0 || sc.RejectMask != 0 || sc.Delta < 0 || len(sc.PubFailAt) != 0 || sc.Restart != 0 {
 		return false, ""
+	}
+	for _, s := range sc.Inputs {
+		if s.At != 0 {
+			// inputs arriving later are swept by txs of their own
+			return false, ""
+		}
 	}
 	imm := false
 	hasReq := false
@@ -1511,8 +1759,161 @@ func spaces(thorough bool) []space {
 			}
 		}
 	}})
+	// ---- H: inputs that travel through SEVERAL sets. Inputs sharing a deadline
+	// are offered at different heights (so each is first swept by a tx of its
+	// own, on its own fee line) with an explicit starting rate from {none, low,
+	// high} each, budgets ordered both ways, optionally immediate; then
+	// (a) every PublishTransaction of one block (or of two blocks) fails with a
+	// non-fee error, so all sets in flight fail together, each input is stamped
+	// with the retry rate of its own set and the next block regroups them; or
+	// (b) the node is restarted and the re-offered inputs are each seeded from
+	// their own mempool tx and grouped at once. Judged by the per-input
+	// monotonicity clause on every tx. ----
+	sp = append(sp, space{"H:staggered-arrivals+regroup", func(emit func(Scenario)) {
+		big := InSpec{Value: 1_000_000, Budget: 100_000}
+		mid := InSpec{Value: 300_000, Budget: 50_000}
+		small := InSpec{Value: 500_000, Budget: 20_000}
+		starts := []int64{0, 400, 20_000}
+		type env struct{ est, mx int64 }
+		envs := []env{{estIn, 1000}, {relay, 3}}
+		if thorough {
+			envs = []env{{estIn, 1000}, {relay, 3}, {relay, 1000}, {estIn, 3}, {10_000_000, 1000}}
+		}
+		seqTo := func(a, b int32) []int32 {
+			var o []int32
+			for x := a; x <= b; x++ {
+				o = append(o, x)
+			}
+			return o
+		}
+		type fault struct {
+			failAt  []int32
+			restart int32
+		}
+		faults := func(d int32) []fault {
+			fs := []fault{{}}
+			for k := int32(1); k <= d; k++ {
+				fs = append(fs, fault{failAt: []int32{k}})
+				if k < d {
+					fs = append(fs, fault{failAt: []int32{k, k + 1}})
+				}
+				if k < d {
+					fs = append(fs, fault{restart: k})
+				}
+			}
+			if thorough {
+				for k := int32(1); k <= d; k++ {
+					for l := k + 2; l <= d; l++ {
+						fs = append(fs, fault{failAt: []int32{k, l}})
+					}
+					if k+2 <= d {
+						fs = append(fs, fault{failAt: []int32{k, k + 1, k + 2}})
+					}
+					for r := int32(1); r < d; r++ {
+						fs = append(fs, fault{failAt: []int32{k}, restart: r})
+					}
+				}
+			}
+			return fs
+		}
+		blockPats := func(d int32, skips bool) [][]int32 {
+			all := seqTo(1, d+1)
+			out := [][]int32{all}
+			if skips {
+				for sk := int32(1); sk <= d+1; sk++ {
+					var b []int32
+					for _, x := range all {
+						if x != sk {
+							b = append(b, x)
+						}
+					}
+					out = append(out, b)
+				}
+			}
+			return out
+		}
+		// two inputs
+		deltas := []int32{4, 6}
+		maxAt := int32(2)
+		rejects := []uint32{0}
+		if thorough {
+			deltas = []int32{4, 6, 8}
+			maxAt = 4
+			rejects = []uint32{0, 1}
+		}
+		for _, pair := range [][2]InSpec{{big, small}, {small, big}} {
+			for at := int32(0); at <= maxAt; at++ {
+				for _, s0 := range starts {
+					for _, s1 := range starts {
+						for imm := 0; imm < 3; imm++ {
+							for _, d := range deltas {
+								if at >= d {
+									continue
+								}
+								for _, e := range envs {
+									for _, ft := range faults(d) {
+										for _, rm := range rejects {
+											// every single skipped height only on the plain variant
+											for _, bl := range blockPats(d, imm == 0 && rm == 0) {
+												a, b := pair[0], pair[1]
+												a.Start, b.Start, b.At = s0, s1, at
+												a.Immediate, b.Immediate = imm == 1, imm == 2
+												emit(Scenario{Kind: "pipe", Inputs: []InSpec{a, b}, MaxFeeRateVB: e.mx, Relay: relay, EstFee: e.est,
+													Delta: d, Blocks: bl, PubFailAt: ft.failAt, Restart: ft.restart, RejectMask: rm})
+											}
+										}
+									}
+								}
+							}
+						}
+					}
+				}
+			}
+		}
+		// three inputs
+		orders := [][3]InSpec{{big, mid, small}, {small, mid, big}, {mid, big, small}}
+		ats := [][2]int32{{1, 2}, {0, 2}, {2, 2}}
+		d3 := []int32{6}
+		if thorough {
+			orders = append(orders, [3]InSpec{big, small, mid}, [3]InSpec{small, big, mid}, [3]InSpec{mid, small, big})
+			ats = [][2]int32{{0, 1}, {0, 2}, {0, 3}, {1, 1}, {1, 2}, {1, 3}, {2, 2}, {2, 4}}
+			d3 = []int32{5, 7}
+		}
+		for _, tr := range orders {
+			for _, at := range ats {
+				for _, s0 := range starts {
+					for _, s1 := range starts {
+						for _, s2 := range starts {
+							for _, d := range d3 {
+								for ei, e := range envs {
+									if ei > 0 && !thorough || ei > 1 {
+										continue
+									}
+									for _, ft := range faults(d) {
+										for _, bl := range blockPats(d, false) {
+											for imm := 0; imm < 2; imm++ {
+												if imm == 1 && !thorough {
+													continue
+												}
+												a, b, c := tr[0], tr[1], tr[2]
+												a.Start, b.Start, c.Start = s0, s1, s2
+												b.At, c.At = at[0], at[1]
+												c.Immediate = imm == 1
+												emit(Scenario{Kind: "pipe", Inputs: []InSpec{a, b, c}, MaxFeeRateVB: e.mx, Relay: relay, EstFee: e.est,
+													Delta: d, Blocks: bl, PubFailAt: ft.failAt, Restart: ft.restart})
+											}
+										}
+									}
+								}
+							}
+						}
+					}
+				}
+			}
+		}
+	}})
 	// cheap, targeted spaces first so that a time cap cuts the big lattice last
-	order := map[string]int{"D": 0, "E": 1, "G": 2, "F": 3, "W": 4, "B": 5, "C": 6, "A2": 7, "A": 8}
+	order := map[string]int{"D": 0, "E": 1, "G": 2, "H": 3, "F": 4, "W": 5, "B": 6, "C": 7, "A2": 8, "A": 9}
 	sort.SliceStable(sp, func(i, j int) bool {
 		return order[strings.SplitN(sp[i].name, ":", 2)[0]] < order[strings.SplitN(sp[j].name, ":", 2)[0]]
 	})
@@ -1656,7 +2057,7 @@ func TestC18Pipe(t *testing.T) {
 	cov := map[string]any{
 		"evaluations":               evals,
 		"distinct_nontrivial":       len(distinct),
-		"rule":                      "publisher: every scenario of the listed spaces (input (value,budget) lattices around each fee/dust/budget threshold +-1, required-output inputs, wallet top-ups, MaxFeeRate 3 and 1000 sat/vb, estimator at floor/in range/above ceiling/below floor/error, explicit starting rates, every subset of the block heights up to one past the deadline, wide deadlines 144/1008/default/1009, mempool-reject and publish-failure masks; values at fee(rate)+dust+-1 for the start / start+1 / mid-ramp / ceiling rate of the schedule with deadlines h+5 and h+6 so that a bump fails mid-ramp and the set is retried twice before deadline-1) run on the real UtxoSweeper+BudgetAggregator+TxPublisher; an evaluation = one scenario; distinct_nontrivial = distinct observation hashes (sequence of (call, height, inputs, fee, weight, change?, answer) of the txs handed to the wallet) among scenarios where at least one tx was handed over",
+		"rule":                      "publisher: every scenario of the listed spaces (input (value,budget) lattices around each fee/dust/budget threshold +-1, required-output inputs, wallet top-ups, MaxFeeRate 3 and 1000 sat/vb, estimator at floor/in range/above ceiling/below floor/error, explicit starting rates, every subset of the block heights up to one past the deadline, wide deadlines 144/1008/default/1009, mempool-reject and publish-failure masks; 2-3 inputs sharing a deadline offered at different heights with explicit starting rates {none, low, high} each, budgets ordered both ways, immediate or not, with every PublishTransaction of one or two blocks failing (all sets in flight fail together and are regrouped) or a node restart (re-offered inputs seeded from their own mempool txs), judged per input; values at fee(rate)+dust+-1 for the start / start+1 / mid-ramp / ceiling rate of the schedule with deadlines h+5 and h+6 so that a bump fails mid-ramp and the set is retried twice before deadline-1) run on the real UtxoSweeper+BudgetAggregator+TxPublisher; an evaluation = one scenario; distinct_nontrivial = distinct observation hashes (sequence of (call, height, inputs, fee, weight, change?, answer) of the txs handed to the wallet) among scenarios where at least one tx was handed over",
 		"samples":                   samples.List(),
 		"outcome_classes":           classes,
 		"scenarios_per_space":       perSpace,
@@ -1670,6 +2071,7 @@ func TestC18Pipe(t *testing.T) {
 	run.Assumptions = append(run.Assumptions,
 		"publisher: inputs are never spent/confirmed during a run (worst case for the ramp); witnesses are dummies of exactly the estimated size, so tx weight == estimated weight",
 		"publisher: goroutine interleavings inside one block handler are not enumerated; the sweeper is run to quiescence (synctest.Wait) before the publisher receives the same block",
+		"publisher: a restart keeps the sweeper store and the mempool (the successfully published txs no later successful publish conflicts with) and re-offers every input with its original params, as the contract resolvers do; in-memory retry rates are lost",
 		"publisher: a below-dust remainder that cannot become a change output is allowed to go to fees on top of MaxFeeRate x weight (the property demands both 'no dust output' and 'spend all inputs'); such cases are counted in outcome_classes",
 	)
 	if code := run.Finish(cov); code != 0 {
